@@ -36,7 +36,8 @@ inductive Node where
   /-- tok = DOT or LBRACKET -/
   | idx (tok : String) (l : Node) (i : Node)
   | comment
-  | macroLit
+  /-- `macro(params){body}`; body is the `.stmts` block -/
+  | macroLit (params : List String) (body : Node)
   deriving Inhabited, Repr
 
 /-- `node.Value().Type()` as the evaluator consults it -/
@@ -62,7 +63,7 @@ def Node.tokType : Node → String
   | .mapLit .. => "LBRACE"
   | .idx t _ _ => t
   | .comment => "LINECOMMENT"
-  | .macroLit => "MACRO"
+  | .macroLit .. => "MACRO"
 
 /-- `node.Value().Literal()` where the evaluator uses it (identifier and string tokens) -/
 def Node.literal : Node → String
